@@ -12,6 +12,7 @@ import (
 	"strings"
 	"sync"
 	"time"
+	"unicode/utf8"
 
 	"github.com/google/gopacket/layers"
 	"github.com/spf13/cobra"
@@ -571,11 +572,31 @@ func parseRateLimit(rateLimit string) (rateCount int, rateWindow time.Duration, 
 }
 
 func parsePacketPayload(payload string) (result []byte, err error) {
-	var unquoted string
-	if unquoted, err = strconv.Unquote(`"` + payload + `"`); err != nil {
+	// validate the escape syntax
+	if _, err = strconv.Unquote(`"` + payload + `"`); err != nil {
 		return
 	}
-	return []byte(unquoted), nil
+	result = make([]byte, 0, len(payload))
+	for len(payload) > 0 {
+		// a raw byte that is not valid UTF-8 stands for itself,
+		// strconv would replace it with U+FFFD (3 other bytes)
+		if r, n := utf8.DecodeRuneInString(payload); r == utf8.RuneError && n == 1 {
+			result = append(result, payload[0])
+			payload = payload[1:]
+			continue
+		}
+		var c rune
+		var multibyte bool
+		if c, multibyte, payload, err = strconv.UnquoteChar(payload, '"'); err != nil {
+			return nil, err
+		}
+		if c < utf8.RuneSelf || !multibyte {
+			result = append(result, byte(c))
+		} else {
+			result = utf8.AppendRune(result, c)
+		}
+	}
+	return
 }
 
 func parseIPFlags(inputFlags string) (result uint8, err error) {
